@@ -381,7 +381,9 @@ def make_semantics(spec, rule_names):
     sem = Sem()
     sem._calls = calls
     for rname, k in methods.items():
-        if k != 'none':
+        if k == 'data':
+            setattr(sem, rname, 0)          # a plain data attribute that happens to be named like a rule
+        elif k != 'none':
             setattr(sem, rname, make(k, rname))
     if default != 'none':
         # _default receives the ast; the rule name is not passed, so tagging by name is only done by methods
@@ -413,7 +415,7 @@ def resolve_actions(spec, rule_names) -> dict:
     The model is told which action each rule has from THIS table, so a change to the implementation's lookup shows as an E1 divergence."""
     from tatsu.util import safe_name
     default, methods = spec
-    live = {m for m, k in methods.items() if k != 'none'}
+    live = {m for m, k in methods.items() if k not in ('none', 'data')}      # 'data': a non-callable attribute of that name (never an action)
     out = {}
     for n in rule_names:
         found = None
